@@ -6,6 +6,7 @@ for i in $COPIES; do
   D=/tmp/r/$i
   rsync -a --exclude .cache --exclude .git --exclude 'lean/.lake' --exclude 'harness/target' --exclude harness/Cargo.toml --exclude harness/.cargo --exclude setup.sh --exclude check --exclude seeded/STATUS.json /verif/ $D/verif/
   sed "s#^REPO = \"/repo\"#REPO = \"$D/repo\"#" /verif/check > $D/verif/check
+  sed "s#/repo/#$D/repo/#g" /verif/harness/Cargo.toml > $D/verif/harness/Cargo.toml
   : > $D/confirm.list
 done
 set -- "$@"
